@@ -18,10 +18,11 @@ LEVEL_TEXT = ('static analysis by abstract interpretation of absolute_threshold 
               "method cn is what absolute_threshold returns for the caller's thresholds, ploidy and reference flag, on the purity-rescaled log2 "
               'when purity < 1. D2 treats a BAF of exactly 0 or 1 as a value (cn1 = cn, cn2 = 0), not as missing. A threshold comparison made on '
               'transformed values (2**log2 against 2**cut-off) is rejected: it is decided on the reals but recorded as a hazard, because 2**x '
-              'collides for neighbouring doubles. (CLI) the `call` command line(s), through a model of argparse built from the declarations in '
-              'commands.py and the real _cmd_ body interpreted with readers, library step and writers stubbed: -t parsed by csvstring (the '
-              'default string too), -m and --purity reach do_call as given. Does not decide where ceil(r*2^log2) crosses integers numerically; '
-              "threshold vectors with ties are outside the property's quantifier.")
+              'collides for neighbouring doubles. absolute_threshold called six times in one interpreter with ploidy / reference sex changing: '
+              'each call is the step function for its own arguments (a memo keyed without the ploidy shows). (CLI) the `call` command line(s), '
+              'through a model of argparse built from the declarations in commands.py and the real _cmd_ body interpreted with readers, library '
+              'step and writers stubbed: -t parsed by csvstring (the default string too), -m and --purity reach do_call as given. Does not decide'
+              " where ceil(r*2^log2) crosses integers numerically; threshold vectors with ties are outside the property's quantifier.")
 TECHNIQUE = "abstract interpretation with order-position domain (log2 only compared against thresholds) and exact term identities"
 
 THR = "cnvlib.call.absolute_threshold"
